@@ -160,10 +160,11 @@ Definition append (nd : store) (p : path) : store :=
   end.
 
 (* One pass of NetCDFWrite.write + _file_io_iteration + file_open over a
-   non-empty sequence of constructs.  [ext_same]: an external file was named
+   non-empty sequence of constructs.  [xt] = the path that the overwrite=False
+   existence test looks at: in the code it is the target itself (write_one).  [ext_same]: an external file was named
    and it is the same file as the target (refused after the target has been
    opened).  Returns the file system afterwards and the error class raised. *)
-Definition write_one (G : fsys -> field -> target -> bool)
+Definition write_one_t (xt : path) (G : fsys -> field -> target -> bool)
            (fs : fsys) (fields : list field) (x : target) (o : wopts) (ext_same : bool) (stamp : Z)
   : fsys * option errk :=
   let nd := nodes fs in
@@ -187,7 +188,7 @@ Definition write_one (G : fsys -> field -> target -> bool)
           | FEarly2 e => (fs, Some e)
           | _ =>
             let ex := isfile_p nd (t_path x) in
-            if ex && negb (w_overwrite o) then (fs, Some OtherErr)
+            if isfile_p nd xt && negb (w_overwrite o) then (fs, Some OtherErr)
             else if existsb (fun f => G fs f x) fields then (fs, Some ValueErr)
             else
               (* g["overwrite"] is switched off when the file does not exist *)
@@ -199,6 +200,10 @@ Definition write_one (G : fsys -> field -> target -> bool)
       end
     end
   end.
+
+Definition write_one (G : fsys -> field -> target -> bool)
+           (fs : fsys) (fields : list field) (x : target) (o : wopts) (ext_same : bool) (stamp : Z)
+  : fsys * option errk := write_one_t (t_path x) G fs fields x o ext_same stamp.
 
 (* A write request: the constructs, the external fields that the writer
    derives from them (Field.convert of every cell measure flagged external
@@ -231,6 +236,47 @@ Definition write_gen (C FW : bool) (G : fsys -> field -> target -> bool)
   end.
 
 Definition write_model := write_gen true true.
+
+(* ---- names as given: expansion, then identification ----------------------------- *)
+(* NetCDFWrite.write: filename = os.path.expanduser(os.path.expandvars(filename)) (the
+   external file name likewise in _file_io_iteration); every later step - the existence
+   test, the guard, os.remove, netCDF4.Dataset - sees the expanded name.  A name as given
+   is a sequence of literal components in which "$VAR" / "${VAR}" and a leading "~" may
+   stand; the environment gives the (absolute, normalised) value of each variable and
+   of HOME.  The interned absolute name is found from the expanded path. *)
+Inductive rcomp := RLit (c : comp) | RVar (v : Z) | RHome.
+Definition rname := list rcomp.
+Record env := mkE { e_vars : list (Z * path); e_home : path }.
+
+Definition expand (ev : env) (r : rname) : path :=
+  flat_map (fun c => match c with
+                     | RLit c => [c]
+                     | RVar v => match zassoc v (e_vars ev) with Some p => p | None => [] end
+                     | RHome => e_home ev
+                     end) r.
+
+Definition name_of (fs : fsys) (p : path) : fname :=
+  match find (fun np => path_eqb (snd np) p) (spell fs) with Some np => fst np | None => -1 end.
+
+Definition target_of (ev : env) (fs : fsys) (r : rname) : target :=
+  let p := expand ev r in mkT (name_of fs p) p.
+
+(* a request with the names as the caller wrote them *)
+Record greq := mkGQ { gq_fields : list field; gq_efields : list field; gq_x : rname; gq_ext : option rname }.
+
+Definition expand_req (ev : env) (fs : fsys) (q : greq) : wreq :=
+  mkQ (gq_fields q) (gq_efields q) (target_of ev fs (gq_x q)) (option_map (target_of ev fs) (gq_ext q)).
+
+Definition write_given (ev : env) (G : fsys -> field -> target -> bool)
+           (fs : fsys) (q : greq) (o : wopts) (stamp : Z) : fsys * option errk :=
+  write_model G fs (expand_req ev fs q) o stamp.
+
+(* Seeded change (second round): the overwrite=False existence test made BEFORE the
+   expansion: it looks at the name as given read as a literal path [lit]. *)
+Definition write_given_test_unexpanded (lit : rname -> path) (ev : env) (G : fsys -> field -> target -> bool)
+           (fs : fsys) (q : greq) (o : wopts) (stamp : Z) : fsys * option errk :=
+  let w := expand_req ev fs q in
+  write_one_t (lit (gq_x q)) G fs (q_fields w) (q_x w) o (ext_same (nodes fs) (q_x w) (q_ext w)) stamp.
 
 (* ---- well-formedness --------------------------------------------------------- *)
 (* no key lies strictly below another key: files and links are leaves *)
